@@ -554,3 +554,96 @@ pub fn large_declared_bad_tail(rng: &mut Rng) -> (Vec<u8>, &'static str) {
     b[pos] = bad;
     (b, enc)
 }
+
+
+/// text made of symbol/pictograph characters of *neighbouring blocks whose names share several words*
+/// ("Miscellaneous Symbols and Pictographs" / "Supplemental Symbols and Pictographs", the Mathematical
+/// Operators blocks, the Combining Diacritical Marks blocks), adjacent without separators
+pub fn adjacent_blocks_text(rng: &mut Rng) -> String {
+    const GROUPS: &[&[u32]] = &[
+        &[0x1F525, 0x1F914, 0x1F680, 0x1F31F, 0x2B50, 0x1F600, 0x1F923, 0x1F9E0, 0x1FA90],
+        &[0x2200, 0x2211, 0x2A00, 0x2A2F, 0x27C0, 0x2980, 0x22C5, 0x2AFF],
+        &[0x0301, 0x0323, 0x1DC0, 0x1DFF, 0x20D0, 0x0300],
+        &[0x2600, 0x26A1, 0x1F300, 0x1F5FF, 0x2700, 0x27BF],
+    ];
+    let g = *rng.pick(GROUPS);
+    let n = rng.range(8, 120);
+    let mut s = String::new();
+    let words = ["status", "ok", "launch", "note", "x", "sum"];
+    for i in 0..n {
+        if let Some(c) = char::from_u32(*rng.pick(g)) {
+            s.push(c);
+        }
+        if rng.chance(1, 5) {
+            s.push(' ');
+            s.push_str(*rng.pick(&words));
+            s.push(' ');
+        }
+        if i % 40 == 39 {
+            s.push('\n');
+        }
+    }
+    s
+}
+
+/// lines of very long ASCII-letter runs (sequence dumps, base64-like), optionally with a few short words
+pub fn long_runs_text(rng: &mut Rng) -> String {
+    let lines = rng.range(3, 30);
+    let width = *rng.pick(&[60usize, 64, 65, 66, 70, 80, 120]);
+    let alphabet: Vec<char> = match rng.below(3) {
+        0 => "ACGT".chars().collect(),
+        1 => "ACDEFGHIKLMNPQRSTVWY".chars().collect(),
+        _ => "abcdefghijklmnopqrstuvwxyzABCDEFGHIJKLMNOPQRSTUVWXYZ".chars().collect(),
+    };
+    let mut s = String::new();
+    if rng.chance(1, 3) {
+        s.push_str("seq one\n");
+    }
+    for _ in 0..lines {
+        for _ in 0..width {
+            s.push(*rng.pick(&alphabet));
+        }
+        s.push(*rng.pick(&['\n', '\n', ' ', ',']));
+    }
+    s
+}
+
+/// a declaration whose label ends within a few bytes of the 4096-byte search zone, optionally behind a mark
+pub fn declaration_at_zone_edge(rng: &mut Rng) -> Case {
+    let mark: &[u8] = *rng.pick(&[&b""[..], &b"\xef\xbb\xbf"[..], &b"\xef\xbb\xbf"[..], &b"\x84\x31\x95\x33"[..]]);
+    let label = *rng.pick(&["windows-1252", "iso-8859-1", "koi8-r", "windows-1251", "latin1", "iso-8859-15", "utf-8"]);
+    let decl = format!("<meta charset={}>", label);
+    // byte offset (in the whole input) one past the last byte of the label
+    let label_end = 4096 - 3 + rng.below(10);
+    let decl_start = label_end + 1 - decl.len(); // '>' follows the label
+    let mut b: Vec<u8> = mark.to_vec();
+    let filler = b"Plain words of padding text, nothing else to see here. ";
+    while b.len() < decl_start {
+        b.push(filler[b.len() % filler.len()]);
+    }
+    b.truncate(decl_start.max(mark.len()));
+    b.extend_from_slice(decl.as_bytes());
+    b.extend_from_slice(b" and the rest of the page follows here with a few more ordinary words.");
+    Case { bytes: b, sett: Sett::default(), tag: format!("decl-at-zone-edge:{}:mark{}:end{}", label, mark.len(), label_end) }
+}
+
+/// ~1.0 MB of EUC-KR / Shift_JIS / Big5 / GBK text with a character boundary at byte 500 000
+pub fn large_multibyte_file(rng: &mut Rng) -> (Vec<u8>, &'static str) {
+    let (enc, name): (&'static str, &str) = *rng.pick(&[("euc-kr", "korean"), ("shift_jis", "japanese"), ("big5", "tradchinese"), ("gbk", "chinese")]);
+    let text = TEXTS.iter().find(|(n, _)| *n == name).unwrap().1;
+    let unit = enc_bytes(text, enc).unwrap_or_default();
+    let mut b: Vec<u8> = Vec::with_capacity(1_100_000);
+    let target = 1_000_100 + rng.below(50_000);
+    while b.len() < target {
+        // keep byte 500 000 on a character boundary: pad with ASCII just before it
+        if b.len() < 500_000 && b.len() + unit.len() + 1 > 500_000 {
+            while b.len() < 500_000 {
+                b.push(b' ');
+            }
+            continue;
+        }
+        b.extend_from_slice(&unit);
+        b.push(b'\n');
+    }
+    (b, enc)
+}
